@@ -381,6 +381,8 @@ def build_system(sc):
         d = dict(evd)
         model = d.pop("add")
         ss.add(model, d)
+    for od in sc.get("output", []):
+        ss.add("Output", dict(od))
     ss.setup()
     cfg = ss.TDS.config
     for k, v in sc.get("tds", {}).items():
@@ -388,6 +390,9 @@ def build_system(sc):
     for k, v in sc.get("sysconf", {}).items():
         setattr(ss.config, k, v)
     return ss
+
+
+build_system_with_output = build_system
 
 
 def run_scenario(sc):
@@ -596,6 +601,11 @@ def encode_trace(res, tid, sc):
             out.append(dict(e=k, both_ok=e["both_ok"], final_close=e["final_close"], fired_same=e["fired_same"],
                             status_same=e["status_same"], axis_has_events=e["axis_has_events"],
                             same_success=e["same_success"], dmax_ppm=int(min(max(e["dmax"], 0) * 1e6, 2e9))))
+        elif k == "files":
+            out.append(dict(e=k, n_expected=e["n_expected"], n_file=e["n_file"], limit_store=e["limit_store"],
+                            mem_equal=e["mem_equal"], files_exist=e["files_exist"], npz_equal=e["npz_equal"],
+                            labels_ok=e["labels_ok"], plotter_ok=e["plotter_ok"], csv_ok=e["csv_ok"],
+                            query_ok=e["query_ok"], replay_ok=e["replay_ok"]))
         elif k in ("save_output", "ts_reset"):
             out.append(dict(e=k, mem=e["mem"], idx_ptr=e.get("idx_ptr", 0), append=e.get("append", False)))
     meta = dict(tid=tid, sid=sc.get("sid"), ntargets=len(res["targets"]), timers=timers, pflow=res["pflow"],
